@@ -495,8 +495,15 @@ def run_case(ctx, model, case):
         with rasterio.open(user["input"]["right"]["img"]) as ds:
             br = list(ds.descriptions)
         common_args = [jw.to_wire(user["input"]["left"]["img"]), jw.to_wire(bl), jw.to_wire(br)]
-        m2, m3 = model.batch([(2, [jw.to_wire(user)] + common_args + [jw.to_wire(margins0)]),
-                              (3, [jw.to_wire(saved)] + common_args)])
+        m2, m3, g1, g2 = model.batch([(2, [jw.to_wire(user)] + common_args + [jw.to_wire(margins0)]),
+                                      (3, [jw.to_wire(saved)] + common_args),
+                                      (7, [jw.to_wire(user)] + common_args),
+                                      (7, [jw.to_wire(saved)] + common_args)])
+        if g1 != 1 or g2 != 1:
+            # the decidable guard of C19_checked_cfg_fixpoint / C19_saved_cfg_replays_partial must hold on real cases
+            ctx.mismatch("replay_guard", rp, "accepted configuration", {"guard(user)": g1, "guard(saved)": g2})
+        else:
+            ctx.count("replay_guard_true", 2)
         if m2 != [1, jw.to_wire(saved)]:
             ctx.mismatch("main_saved", rp, jw.show(saved), jw.show(jw.from_wire(m2[1])) if m2 and m2[0] == 1 else "model rejects")
         ctx.traces += 1
